@@ -27,9 +27,21 @@ pub fn strategy() -> BoxedStrategy<Scenario> {
         .boxed()
 }
 
+/// uploads whose window holds more than 1024 blocks (one flush writes thousands of pieces)
+pub fn big_window_strategy() -> BoxedStrategy<Scenario> {
+    (prop::sample::select(vec![1025u16, 1100, 2000, 4096, 65535]), 1030usize..2400, 0usize..8, any::<u64>(), any::<bool>())
+        .prop_map(|(ws, blocks, rem, seed, clean)| {
+            let mut sc = Scenario::lossless(Role::Receiver, 8, ws, blocks * 8 + rem, seed);
+            sc.clean = clean;
+            sc
+        })
+        .boxed()
+}
+
 pub fn judge(dir: &Path, sc: &Scenario, obs: &mut Obs) -> Judge {
     let (_r, _findings, fa) = run_and_judge(dir, sc, obs, &["R1", "R2", "R5"])?;
-    obs.nontrivial = fa.accepted_blocks >= 2 && (fa.data_dups_delivered + fa.data_gaps_delivered + fa.noise > 0);
+    obs.class_if(sc.ws > 1024 && fa.accepted_blocks > 1024, "window-above-1024-blocks");
+    obs.nontrivial = fa.accepted_blocks >= 2 && (fa.data_dups_delivered + fa.data_gaps_delivered + fa.noise > 0 || sc.ws > 1024);
     Ok(())
 }
 
@@ -39,6 +51,7 @@ pub fn run(ctx: &Ctx) {
     ctx.assume("injected DATA always carries the true payload of its absolute block (what duplication/reordering of a conformant sender's datagrams can produce)");
     let dirs = DirPool::new(ctx, "c02");
     explore(ctx, "random", ctx.tier.pick(200_000, 4_000_000), strategy, |c: &Scenario, o| dirs.with(|d| judge(d, c, o)));
+    explore_n(ctx, "big-window", ctx.tier.pick(64, 2_000), shards(), 16, big_window_strategy, |c: &Scenario, o| dirs.with(|d| judge(d, c, o)));
     super::c0xw::run_wire(ctx, true);
 }
 
